@@ -27,7 +27,7 @@ def P(design, technique, explanation, level_text, tb=None, assumptions=None, par
 
 PROPS = {
  "C01": P("DESIGN.md 7 C01",
-   "Lean 4 proof (encoder and parser each refine the format's grammar; composition; CBOR and UBJSON in full, JSON as two halves meeting at the RFC 8259 reference decoder) + differential correspondence",
+   "Lean 4 proof (encoder and parser each refine the format's grammar; composition; CBOR and UBJSON in full, JSON for float-free streams) + differential correspondence",
    "cbor_roundtrip: for every contract-conforming event tree with in-range numbers the CBOR encoder's bytes are accepted by "
    "the CBOR parser with events building the same value. Proof = enc_tree (encoder writes the wire form of an item) o "
    "value_lemma (parser delivers the item's events), mutual structural induction, no size bound. "
@@ -36,16 +36,16 @@ PROPS = {
    "tree's up to the documented representation change (uint64 > MaxInt64 -> decimal string), exactly equal otherwise, and "
    "the draft-12 reference decoder reads the same value; proved through a bridge between the encoder-side and the "
    "parser-side grammar (SF/Proofs/UbjBridge*.lean); the range condition on numbers is shown necessary (OnInt8(300) reads back as 44). "
-   "JSON: C07 json_output_decodes (encoder text decodes to the value) and C04 json_reads_value (parser reads every "
-   "grammatical text as the reference value) meet at SF/Json/Cst.lean; the composed statement is decided by the correspondence. "
+   "PropsJson.C01 json_encoder_writes_grammar / json_roundtrip / json_roundtrip_sanitized / json_roundtrip_chunks: for every float-free tree "
+   "with in-range numbers and all encoder options the JSON encoder's output is a grammatical RFC 8259 text which the JSON parser reads — under "
+   "every chunking — as one contract-conforming document with exactly the tree's value (invalid UTF-8: the sanitized value), as the reference decoder does. "
    "Correspondence: op `rt` (encode, Parse whole, then re-parse byte-wise through ParseReader) on renditions of random values "
    "x all kinds x boundary integers x all bytes as strings/keys x float specials x JSON options x strings/keys whose length "
    "byte is a marker of the format x several long escaped strings per document; oracle: value of the parsed events = value "
    "of the stream up to the format's documented representation changes (approxUbj / approxJson), independent of how the bytes arrive.",
-   "Kernel-checked round-trip theorems for CBOR and UBJSON over all well-formed streams; JSON by two kernel-checked halves plus "
+   "Kernel-checked round-trip theorems for CBOR, UBJSON and (float-free) JSON over all well-formed streams; JSON floats by "
    "executable mirror, correspondence and specification oracle.",
-   partial="JSON: the encoder theorem and the parser theorem are not composed into one round-trip statement (floats: the encoder's shortest "
-           "round-tripping decimal is decided by oracle, not proved)"),
+   partial="JSON streams containing floats: the encoder's shortest round-tripping decimal (strconv.AppendFloat 'g' -1) is modelled and decided by oracle, not proved"),
  "C02": P("DESIGN.md 7 C02",
    "Lean 4 proof (full chunk-independence theorem for the CBOR parser: same events and same verdict for every byte string, every chunking, every visitor fault index) + differential correspondence over cut sets",
    "cbor_chunk_independent / cbor_chunk_independent_failAt / cbor_chunkings_agree / cbor_chunk_independent_reach: for every "
@@ -128,7 +128,7 @@ PROPS = {
    "Kernel-checked for CBOR and UBJSON against independent grammars + reference decoders; JSON by mirror + correspondence + oracle.",
    partial="JSON encoder: no theorem yet"),
  "C08": P("DESIGN.md 7 C08",
-   "Lean 4 proof (corollary of parser refinement, contract theorem and encoder refinement) + differential correspondence",
+   "Lean 4 proof (all nine pairs: corollaries of the three parser refinements, the contract theorems and the three encoder refinements) + differential correspondence",
    "cbor_to_cbor: parser events of any supported item in any spelling fed to the encoder give a valid document with the "
    "same value. Correspondence: op `xcode` (Src.ParseReader(in, Dst.NewVisitor(out)) as in the README) for all 9 pairs, "
    "single documents and streams, random chunkings; oracle: both documents decoded by the specifications."
@@ -137,18 +137,19 @@ PROPS = {
    "accepted by the RFC 8259 reference decoder with the source's value), by composing the CBOR parser refinement with the "
    "UBJSON / JSON encoder theorems; chunking: C02 (CBOR parser events do not depend on it)."
    " PropsUbjSrc.C08: ubjson_to_ubjson (exactly the source's value, read back by reference decoder AND parser), ubjson_to_cbor (well-formed RFC 7049 item "
-   "with the source's value; `sized` follows from wire.length < 2^63), ubjson_to_json (float-free, UTF-8), for every grammatical UBJSON item in any spelling.",
-   "Kernel-checked for the six pairs with a CBOR or UBJSON source (JSON targets: float-free sources); the three pairs with a JSON source by the JSON parser "
-   "theorem (C04) + composed mirrors + correspondence + oracle.",
-   partial="pairs with a JSON source: json_reads_value gives the events; their composition with the three encoder theorems is not yet stated; "
-           "float-carrying sources into JSON (shortest decimal) by oracle"),
+   "with the source's value; `sized` follows from wire.length < 2^63), ubjson_to_json (float-free, UTF-8), for every grammatical UBJSON item in any spelling."
+   " PropsJsonSrc.C08: json_to_cbor, json_to_ubjson (read back by reference decoder AND UBJSON parser), json_to_json (float-free; read back by reference decoder AND JSON parser), "
+   "json_source_any_chunking, for EVERY grammatical JSON text; no range / UTF-8 side condition (the parser delivers in-range events and well-formed UTF-8).",
+   "Kernel-checked for all nine pairs (JSON as TARGET: float-free sources); float-carrying sources into JSON by composed mirrors + correspondence + oracle.",
+   partial="float-carrying sources into a JSON target (the encoder's shortest decimal): oracle; sources outside the grammars (refused documents): oracle"),
  "C09": P("DESIGN.md 7 C09",
    "Lean 4 proof (contract automaton WF on event trees; CBOR parser; adapters) + WF monitor as oracle on every stream",
    "tree_events_wf (generic), cbor_parser_wf (every accepted supported stream), expand_array_wf / expand_map_wf (all 29 "
-   "adapter expansions). Oracle: WF evaluated on every event stream any parser delivers.",
-   "Kernel-checked for the generic layer, the CBOR parser, the UBJSON parser (PropsUbjP.C09 ubj_parser_wf) and the adapters; the "
-   "JSON parser and Fold by mirror + WF oracle.",
-   partial="Fold (gotype) and JSON parser instances not yet proved"),
+   "adapter expansions). PropsJsonP.C09 json_parser_wf1(_chunks) / json_parser_wf(_chunks) / json_parser_events_ok: every grammatical JSON "
+   "text / stream, under every chunking, is delivered as a contract-conforming stream whose strings are well-formed UTF-8 and whose numbers are "
+   "in the range of their event kind. Oracle: WF evaluated on every event stream any parser or Fold delivers.",
+   "Kernel-checked for the generic layer, the CBOR, UBJSON and JSON parsers and the adapters; Fold by mirror + WF oracle.",
+   partial="Fold (gotype) as producer: WF oracle on every fold op (a proof is in progress)"),
  "C10": P("DESIGN.md 7 C10",
    "Lean 4 proof (native typed methods = expansion, same bytes and state; byte slices same value) + differential correspondence",
    "cbor_ext_same: step s x = execEvs s x.expand for every typed array (except byte slices), typed map and by-reference "
